@@ -38,11 +38,10 @@ type scen struct {
 	trace   []string
 	emitted map[uint64]bool // drop already logged
 
-	fixed, perPeer int // goroutines of package syncer: without peers, and per registered peer
-	endingRate     int // one request in endingRate ends in an error / panic / client abort (0: none)
-	calibrated     bool
-	noTrace        bool        // the closing part of the log is not a determined linearisation
-	peakSub        map[int]int // highest number of running handlers per subnet since the phase began
+	base       int         // goroutines of package syncer that are not handlers inside the chain manager (see rebase)
+	endingRate int         // one request in endingRate ends in an error / panic / client abort (0: none)
+	noTrace    bool        // the closing part of the log is not a determined linearisation
+	peakSub    map[int]int // highest number of running handlers per subnet since the phase began
 
 	steps []string // human readable script, for the replay file
 	fails []failure
@@ -78,8 +77,6 @@ func coqBool(b bool) string {
 }
 
 func newScen(cfg bedConfig, r *rng.R) (*scen, error) {
-	// the goroutines of the previous syncer are all gone before this one is measured
-	waitUntil(300*time.Millisecond, func() bool { return goroutines().syncer == 0 })
 	tb, err := newBed(cfg)
 	if err != nil {
 		return nil, err
@@ -96,43 +93,38 @@ func newScen(cfg bedConfig, r *rng.R) (*scen, error) {
 	tb.onReturn = func(ri *rpcInfo) {
 		sc.emit(fmt.Sprintf("LHDone %d", ri.rid), fmt.Sprintf("LRelSub %d", ri.rid), fmt.Sprintf("LRelPeer %d", ri.rid))
 	}
-	// How many goroutines the idle syncer runs in its own package (Run and its loops), by count
-	// rather than by function name; one more per registered peer is measured at the first connect.
-	sc.fixed, sc.perPeer = stableSyncerCount(), 1
+	sc.base = 1 << 30
 	return sc, nil
 }
 
-// stableSyncerCount reads the number of goroutines with a frame of package syncer until three
-// readings in a row agree (used only while nothing is in flight).
-func stableSyncerCount() int {
-	last, same := -1, 0
-	for i := 0; i < 400; i++ {
-		n := goroutines().syncer
-		if n == last {
-			if same++; same >= 2 {
-				return n
-			}
-		} else {
-			last, same = n, 0
-		}
-		time.Sleep(150 * time.Microsecond)
-	}
-	return last
+// syncerLess returns the number of goroutines with a frame of package syncer minus the handlers
+// that are inside the chain manager, or false if a handler entered or left the chain manager
+// while the stacks were taken.
+func (sc *scen) syncerLess() (int, bool) {
+	tb := sc.tb
+	tb.mu.Lock()
+	before := tb.live
+	tb.mu.Unlock()
+	n := goroutines().syncer
+	tb.mu.Lock()
+	after := tb.live
+	tb.mu.Unlock()
+	return n - before, before == after
 }
 
-// calibratePeers measures the goroutines per registered peer (nothing is in flight).
-func (sc *scen) calibratePeers() {
-	n := len(sc.tb.s.Peers())
-	if n == 0 || sc.calibrated {
-		return
+// rebase: the goroutines the syncer runs besides the handlers inside the chain manager -- its own
+// loops and one (or however many) per peer -- are counted, by package path and not by function
+// name, when the set of peers has just changed.  The count may still contain goroutines that are
+// on their way out (a peer that has just left, a handler that is finishing): those only ever make
+// it too high, and settle lowers it whenever it sees fewer.  It can never be too low: everything
+// that stays has been started by the time a connection is listed by Peers().
+func (sc *scen) rebase() {
+	for i := 0; i < 50; i++ {
+		if n, ok := sc.syncerLess(); ok {
+			sc.base = n
+			return
+		}
 	}
-	sc.tb.mu.Lock()
-	live := sc.tb.live
-	sc.tb.mu.Unlock()
-	if d := stableSyncerCount() - sc.fixed - live; d > 0 && d%n == 0 {
-		sc.perPeer = d / n
-	}
-	sc.calibrated = true
 }
 
 // ------------------------------------------------------------ connect / disconnect
@@ -222,7 +214,7 @@ func (sc *scen) connectBatch(specs [][2]int) (admitted int) {
 			p.close()
 		}
 	}
-	sc.calibratePeers()
+	sc.rebase()
 	return
 }
 
@@ -245,7 +237,7 @@ func (sc *scen) connectOutbound(sub, host int) bool {
 	sc.emitL(fmt.Sprintf("LAllow %d %d false true", p.id, p.key), fmt.Sprintf("LAdd %d true", p.id), fmt.Sprintf("LLoopStart %d true", p.id))
 	sc.peers = append(sc.peers, p)
 	sc.notes["outbound"]++
-	sc.calibratePeers()
+	sc.rebase()
 	return true
 }
 
@@ -266,6 +258,7 @@ func (sc *scen) disconnect(p *rawPeer) {
 			break
 		}
 	}
+	sc.rebase()
 }
 
 // ------------------------------------------------------------ rest detection
@@ -321,11 +314,19 @@ func (sc *scen) settle(what string) bool {
 			why = w
 			return false
 		}
-		// every goroutine of the syncer is accounted for: its own loops, one per registered peer,
-		// one per handler inside the chain manager -- anything beyond is a handler between two steps
-		want := sc.fixed + sc.perPeer*len(tb.s.Peers()) + live
-		if got := goroutines().syncer; got != want {
-			why = fmt.Sprintf("handler goroutines in transit: the syncer runs %d goroutines, %d are accounted for (%d handlers are inside the chain manager)", got, want, live)
+		// besides the handlers inside the chain manager the syncer runs what it ran when the peers
+		// last changed (or less: goroutines that were on their way out then); anything beyond that
+		// is a handler between two of its steps
+		got, stable := sc.syncerLess()
+		if !stable {
+			why = "handlers are entering or leaving the chain manager"
+			return false
+		}
+		if got < sc.base {
+			sc.base = got
+		}
+		if got > sc.base {
+			why = fmt.Sprintf("handler goroutines in transit: besides the %d handlers inside the chain manager the syncer runs %d goroutines, %d when the peers last changed", live, got, sc.base)
 			return false
 		}
 		// nothing moved while we looked
